@@ -44,8 +44,8 @@ def keep(o):
 
 def run(ck):
     engine.check_engine(ck, 'C11', actor.proj(keep_out=keep, keys=('starts', 'alive', 'zombies')),
-                        'Ok messages with their actual flag + service starts + live instances', n_sys_quick=12,
-                        families=['svc', 'aggchain', 'random'], fail_p=0.05, extra=lifetimes)
+                        'Ok messages with their actual flag + service starts + live instances',
+                        families=['svc', 'aggchain', 'random'], fail_p=0.45, gated_p=0.8, n_sys_quick=16 if False else 16, extra=lifetimes)
 
 
 def replay(ck, path):
